@@ -62,11 +62,13 @@ def universe(thorough: bool) -> typing.List[TypeDef]:
     # ---- L2 arrays
     elems = [("b", "bool"), ("u8", "uint8"), ("by", "byte"), ("ch", "utf8"), ("u16", "uint16"), ("ut5", "truncated uint5"), ("i13", "int13"), ("f16", "float16"), ("f32", "float32"), ("i64", "int64")]
     kinds = [("f1", "[1]"), ("f3", "[3]"), ("f9", "[9]"), ("v1", "[<=1]"), ("v3", "[<=3]"), ("v9", "[<=9]")]
-    for (et, ee), (kt, ke) in itertools.product(elems, kinds):
+    # the remaining standard-size element types (each has its own storage type / NumPy dtype / bulk-copy path)
+    more = [("i8", "int8"), ("i16", "int16"), ("u32", "uint32"), ("i32", "int32"), ("u64", "uint64"), ("f64", "float64")]
+    for (et, ee), (kt, ke) in itertools.product(elems + more, kinds):
         if et == "ch" and kt[0] == "f":
             continue  # utf8 is only valid as the element of a variable-length array
         for k in range(0, 8):
-            core = k in (0, 3) and kt in ("f3", "v3", "v9", "f9")
+            core = k in (0, 3) and kt in (("f3", "v3") if (et, ee) in more else ("f3", "v3", "v9", "f9"))
             if not thorough and k not in (0, 1, 3, 7):
                 continue
             pre = "" if k == 0 else f"truncated uint{k} p\n"
